@@ -217,6 +217,19 @@ fn rule_struct_eq_hash() {
     core::mem::forget(bx);
     core::mem::forget(by);
 }
+/// `==` of two case-insensitive matches alone (no hash streams: small unwind, so that a change of the
+/// comparison is decided in seconds whatever it does to the cost of the stream harness below).
+fn insens_eq() {
+    let buf = nd::ascii_buf::<4>(b"abA");
+    let s = nd::as_str(&buf);
+    let a = Insens::<'_, AB>::from(&s[0..2]);
+    let b = Insens::<'_, AB>::from(&s[2..4]);
+    let same_text = buf[0] == buf[2] && buf[1] == buf[3];
+    assert!((a == b) == same_text, "Insens == does not compare the matched text");
+    assert!(a.clone() == a, "clone of an Insens node differs from its original");
+    cover!(same_text, "same spelling at different offsets");
+    cover!(!same_text && buf[0] == b'a' && buf[2] == b'A' && buf[1] == buf[3], "spellings that differ in case only");
+}
 fn insens_eq_hash() {
     let buf = nd::ascii_buf::<4>(b"abA");
     let s = nd::as_str(&buf);
@@ -295,6 +308,7 @@ harnesses! {
     #[kani::unwind(42)] fn c18_wrappers() [] : "Q|Skipped / Push / Positive: ==/hash/clone field-wise" { wrappers_eq_hash() }
     #[kani::unwind(42)] fn c18_span_position() [] : "Q|Span / Position of one input object: ==/hash exactly on offsets; all sub-ranges of a 3-byte string" { span_pos_eq_hash() }
     #[kani::unwind(42)] fn c18_rule_struct() [] : "Q|normal / non-atomic / boxed rule structs built from public fields: == exactly (content and span), equal values hash equally" { rule_struct_eq_hash() }
+    #[kani::unwind(6)] fn c18_insens_eq() [] : "Q|Insens: == exactly on the matched text (spellings differing in case only are different), clone == original" { insens_eq() }
     #[kani::unwind(42)] fn c18_insens_range() [] : "Q|Insens: == on the matched text, equal spellings at different offsets hash equally; CharRange == / hash on the character" { insens_eq_hash() }
     #[kani::unwind(42)] fn c18_reparse_normal() [T0 S] : "Q|normal rule: parsing the same input again (used tracker, unrelated parse in between) gives an equal tree with an equal hash stream; clone; abstract children, 3 positions" { reparse_normal() }
     #[kani::unwind(42)] fn c18_reparse_silent() [T0 S] : "Q|silent rule: same" { reparse_silent() }
